@@ -1,2 +1,7 @@
 import HT.Base
 import HT.Model.Decoder
+import HT.Model.Packet
+import HT.Model.Canary
+import HT.Props.C02
+import HT.Props.C14
+import HT.Props.C17
